@@ -111,7 +111,12 @@ def pred_remerge(case, compiled=False):
     return n >= (2 if compiled else 3) and any(len(s.get(k) or []) > 1 for s in all_schemas(case) for k in ("oneOf", "anyOf"))
 
 def pred_int_number(case):
-    ts = {s.get("type") for s in all_schemas(case) if isinstance(s.get("type"), str)}
+    # `integer` on one side, `number` (alone or in a type list) on the other: merge.rs intersects the type SETS
+    ts = set()
+    for s in all_schemas(case):
+        t = s.get("type")
+        if isinstance(t, str): ts.add(t)
+        elif isinstance(t, list): ts |= {x for x in t if isinstance(x, str)}
     return "integer" in ts and "number" in ts
 
 def pred_array_items(case):
@@ -227,6 +232,26 @@ def gen_obj(rng, home, defs, closed_ok=True):
     elif r < 0.3: o["additionalProperties"] = copy.deepcopy(rng.choice(SCALARS[:3]))
     return o
 
+SCALAR_POOL = [{"type": "string"}, {"enum": ["red", "green", "blue"]}, {"enum": ["green", "blue", 1]}, {"type": "integer"},
+               {"type": "integer", "minimum": 0, "maximum": 10}, {"type": "number"}, {"type": "string", "enum": ["red", "off"]},
+               {"type": "boolean"}, {"type": "string", "minLength": 2}, {"not": {"enum": ["green"]}}, {},
+               {"const": "blue"}, {"const": "red"}, {"const": 1}, {"type": "string", "const": "green"},
+               {"type": "integer", "minimum": 0, "maximum": 0, "exclusiveMinimum": -1}, {"type": "integer", "minimum": 1},
+               {"type": "integer", "exclusiveMinimum": 0, "exclusiveMaximum": 2}, {"type": "integer", "format": "int32", "maximum": 5},
+               {"type": "number", "minimum": 0.5, "maximum": 2.5}, {"type": "integer", "enum": [0, 1, 2]},
+               {"type": ["number", "null"]}, {"enum": [1, 2.5, None, "x"]}, {"type": "number", "enum": [1, 2, 2.5]}]
+
+def scalar_pair_cases():
+    """every unordered pair of the scalar pool (and each entry against a reference to an enumeration): deterministic"""
+    out = []
+    defs = {"Enum": {"type": "string", "enum": ["red", "green", "blue"]}, "Num": {"type": "number"}}
+    pool = SCALAR_POOL + [ref("Enum"), ref("Num")]
+    for i in range(len(pool)):
+        for j in range(i + 1, len(pool)):
+            xs = [copy.deepcopy(pool[i]), copy.deepcopy(pool[j])]
+            out.append({"tag": "pair:%d:%d" % (i, j), "schemas": xs, "defs": reach_defs(defs, xs)})
+    return out
+
 def gen_case(rng, k):
     home = {p: copy.deepcopy(rng.choice(SCALARS[:5])) for p in PROPS}
     defs = {}
@@ -266,6 +291,9 @@ def gen_case(rng, k):
             names = rng.sample(PROPS, 1 if rng.random() < 0.8 else 2)
             xs.insert(rng.randrange(len(xs) + 1), {"not": {"type": "object", "required": sorted(names)}})
     elif mode == "scalar":
+        pool = SCALAR_POOL + ([ref("Enum")] if "Enum" in defs else [])
+        xs = [copy.deepcopy(rng.choice(pool)) for _ in range(n)]
+    elif mode == "scalar-old":
         pool = [{"type": "string"}, {"enum": ["red", "green", "blue"]}, {"enum": ["green", "blue", 1]}, {"type": "integer"},
                 {"type": "integer", "minimum": 0, "maximum": 10}, {"type": "number"}, {"type": "string", "enum": ["red", "off"]},
                 {"type": "boolean"}, {"type": "string", "minLength": 2}, {"not": {"enum": ["green"]}}, {},
@@ -376,7 +404,7 @@ def perms_of(rng, n):
 
 def make_cases(ctx):
     rng = ctx.rng
-    cases = [copy.deepcopy(c) for c in HAND] + unit_test_cases()
+    cases = [copy.deepcopy(c) for c in HAND] + unit_test_cases() + scalar_pair_cases()
     nded, nuni = (6000, 800) if ctx.tier == "thorough" else (420, 60)
     for k in range(nded): cases.append(gen_case(rng, k))
     for k in range(nuni): cases += universe_cases(rng, k, 3 + k % 6)
